@@ -468,6 +468,9 @@ harness('h_link::c06_link_arp_ethernet_door_slices', ['C06'], 'bounded (Ethernet
 harness('h_link::c04_link_arp_headers_behind_vlan', ['C04'], 'bounded (0x8100 -> VLAN -> ARP hlen 6/plen 4, inputs 4..=34 B)', 'PacketHeaders vs SlicedPacket: same verdict, same error value, ARP struct == the bytes, payload Empty', tier='quick', bound='4..=34 B', args=_OLD, timeout=600, heavy=False)
 harness('h_link::c05_link_arp_lax_headers_behind_vlan', ['C05', 'C04'], 'bounded (0x8100 -> VLAN -> ARP hlen 6/plen 4, inputs 4..=34 B)', 'LaxPacketHeaders vs LaxSlicedPacket: same stop error; an accepted ARP packet leaves the payload PacketHeaders returns (Empty): defect D15, repaired', tier='quick', bound='4..=34 B', args=_OLD, timeout=600, heavy=False)
 
+# ---- Linux SLL door for the non-Ethernet hardware types (seed C03-E)
+harness('h_sll::c03_sll_non_ethernet_stops_behind_link', ['C03'], 'bounded (SLL header + 0..=8 payload bytes; hardware types NETLINK, IPGRE, radiotap, FRAD; every protocol value and packet type)', 'SlicedPacket::from_linux_sll stops behind the link layer when the protocol field is no Ethernet protocol number (ARPHRD != ETHER)', tier='quick', bound='<= 24 B', args=_OLD, timeout=900, heavy=False)
+
 # ---- C09 at the 64 KiB boundary (paired harnesses for the unbounded Verus proofs; oracle h_builder::ref_*) ---------------------
 harness('h_big::c09_k_big_tcp_slice_ipv6', ['C09'], 'bounded (one length: 65556 B segment, zero body; symbolic addresses + header; add_slice stubbed by zero-tail ideal accumulator)', 'TcpSlice::calc_checksum_ipv6 == RFC 9293/8200 checksum with the 32 bit length in the pseudo header', tier='thorough', bound='1 length (65556 B)', timeout=1800)
 harness('h_big::c09_k_big_tcp_header_slice_ipv6', ['C09'], 'bounded (one length: 20 B header + 65536 B zero payload)', 'TcpHeaderSlice::calc_checksum_ipv6_raw, same', tier='quick', bound='1 length', timeout=600)
